@@ -2,7 +2,8 @@
 Specification of C12's uniqueness clause for documents (YAML / XML), independent of the parser model:
 a map field declared `unique:true` whose data node states the same key text twice violates the constraint —
 the conversion must be rejected. Only this clear case is judged (other spellings of one key, deduced uniqueness,
-nested maps: `unspec`).
+nested maps: `unspec`). A blank key text states no key (the parser treats such an entry as absent): blank texts
+do not count as repeats.
 -/
 import TableauVerif.Model.DocParser
 namespace TableauVerif.Spec.C12Doc
@@ -17,7 +18,7 @@ def violated (fields : List TField) (sheet : BNode) : Bool :=
   fields.any fun f =>
     f.card == .map && f.prop.unique == some true &&
     (match findChild (BNode.children sheet) f.name with
-     | some n => BNode.kind n == .map && hasRepeat ((BNode.children n).map BNode.name)
+     | some n => BNode.kind n == .map && hasRepeat (((BNode.children n).map BNode.name).filter (!·.isEmpty))
      | none => false)
 
 /-- `rejected` = the real parser returned an error -/
